@@ -221,3 +221,102 @@ def check_solution(K, f, V, fixed, cond, circprops, reported=None, tol=1e-6, K_s
                 out.append(("reported-charge", "conductor %d: reported %.9g, flux implied by the potentials %.9g" % (c, reported[c], qf), dict(conductor=c)))
     res["charges"] = charges
     return out, res
+
+
+# ------------------------------------------------------------------------------------------------ heat flow
+def getk(mat, T):
+    """piecewise-linear, clamped k(T) of a heat material: (kx, ky)"""
+    tk = mat.get("TK", [])
+    if not tk:
+        return mat.get("Kx", 1.0), mat.get("Ky", 1.0)
+    if len(tk) == 1 or T <= tk[0][0]:
+        return tk[0][1], tk[0][1]
+    if T >= tk[-1][0]:
+        return tk[-1][1], tk[-1][1]
+    for (t0, k0), (t1, k1) in zip(tk[:-1], tk[1:]):
+        if t0 <= T <= t1:
+            k = k0 + (k1 - k0) * (T - t0) / (t1 - t0)
+            return k, k
+    return mat.get("Kx", 1.0), mat.get("Ky", 1.0)
+
+
+def heat_system(mesh, T, Tprev=None):
+    """nonlinear Galerkin equations of div(k grad T) + q = C dT/dt evaluated AT the temperature field T:
+    K(T) (sparse, SI), f(T); radiation enters through its exact value beta*sigma*(T_m^4 - Tinf^4) at the edge mean
+    temperature written as c0(T_m)*T + c1(T_m) (identical at a fixed point of the iteration)"""
+    prob = mesh.prob
+    n = mesh.n
+    rows, cols, vals = [], [], []
+    f = np.zeros(n)
+    axi = prob.ptype != "planar"
+    for k in range(len(mesh.els)):
+        lab = prob.labels[mesh.lbl[k]]
+        mat = prob.blockprops[lab["block"]]
+        idx = mesh.els[k]
+        ks = [getk(mat, T[i]) for i in idx]
+        kx = sum(a for a, _ in ks) / 3
+        ky = sum(b for _, b in ks) / 3
+        p, q, a = mesh.grads(k)
+        D = mesh.depth_el(k)
+        Ke = D * (kx * np.outer(p, p) + ky * np.outer(q, q)) / (4 * a)
+        for i in range(3):
+            f[idx[i]] += D * mat.get("qv", 0.0) * a / 3
+            for j in range(3):
+                rows.append(idx[i]); cols.append(idx[j]); vals.append(Ke[i, j])
+            if prob.dt != 0 and Tprev is not None:
+                m = D * mat.get("Kt", 0.0) * a / (3 * prob.dt)      # lumped capacity
+                rows.append(idx[i]); cols.append(idx[i]); vals.append(m)
+                f[idx[i]] += m * Tprev[idx[i]]
+    mesh.K_stiff = sp.csr_matrix((list(vals), (list(rows), list(cols))), shape=(n, n))
+    for (k, s), ent in sorted(mesh.side_ent.items()):
+        e = mesh.ents.get(ent)
+        if e["bc"] < 0:
+            continue
+        bp = prob.bdryprops[e["bc"]]
+        i, j = mesh.els[k][s], mesh.els[k][(s + 1) % 3]
+        l = math.hypot(*(mesh.xy[i] - mesh.xy[j]))
+        t = bp["type"]
+        if t == 1:
+            c0, c1 = 0.0, bp.get("qs", 0.0)
+        elif t == 2:
+            c0, c1 = bp.get("h", 0.0), -bp.get("h", 0.0) * bp.get("Tinf", 0.0)
+        elif t == 3:
+            Tm = (T[i] + T[j]) / 2
+            c0 = 4 * bp.get("beta", 0.0) * KSB * Tm ** 3
+            c1 = -bp.get("beta", 0.0) * KSB * (bp.get("Tinf", 0.0) ** 4 + 3 * Tm ** 4)
+        else:
+            continue
+        if axi:
+            ri, rj = mesh.xy[i, 0], mesh.xy[j, 0]
+            w = 2 * math.pi * c0 * l
+            for (a_, b_, wt) in ((i, i, (3 * ri + rj) / 12), (j, j, (ri + 3 * rj) / 12), (i, j, (ri + rj) / 12), (j, i, (ri + rj) / 12)):
+                rows.append(a_); cols.append(b_); vals.append(w * wt)
+            f[i] -= 2 * math.pi * c1 * l * (2 * ri + rj) / 6
+            f[j] -= 2 * math.pi * c1 * l * (ri + 2 * rj) / 6
+        else:
+            D = prob.depth * mesh.u
+            for (a_, b_, wt) in ((i, i, 2), (j, j, 2), (i, j, 1), (j, i, 1)):
+                rows.append(a_); cols.append(b_); vals.append(D * l * c0 * wt / 6)
+            f[i] -= D * l * c1 / 2
+            f[j] -= D * l * c1 / 2
+    fixed, cond = {}, {}
+    for i in range(n):
+        for ent in mesh.node_ents[i]:
+            e = mesh.ents.get(ent)
+            if ent[0] == "pt" and e["bc"] >= 0:
+                pp = prob.pointprops[e["bc"]]
+                if pp.get("q", 0.0) == 0:
+                    fixed[i] = pp.get("V", 0.0)
+                else:
+                    f[i] += mesh.depth_node(i) * pp["q"]
+            if ent[0] != "pt" and e["bc"] >= 0 and prob.bdryprops[e["bc"]]["type"] == 0:
+                fixed[i] = prob.bdryprops[e["bc"]].get("Tset", 0.0)
+        for ent in mesh.node_ents[i]:
+            e = mesh.ents.get(ent)
+            if e["cond"] >= 0:
+                cond[i] = e["cond"]
+    for i, c in cond.items():
+        if prob.circprops[c].get("type", 1) == 1:
+            fixed[i] = prob.circprops[c].get("V", 0.0)
+    K = sp.csr_matrix((vals, (rows, cols)), shape=(n, n))
+    return K, f, fixed, cond
